@@ -72,6 +72,10 @@ def _nonneg(t: Term, depth: int = 0) -> bool:
         return _nonneg(t[2], depth + 1) and _nonneg(t[3], depth + 1)
     if t[0] == "bin" and t[1] == "**" and t[3][0] == "const" and isinstance(t[3][1], int) and t[3][1] % 2 == 0:
         return True
+    if t[0] == "attr" and t[2] in ("eps", "epsilon", "resolution", "number_of_players", "tiny"):
+        return True          # machine epsilon of a float type; a player count
+    if is_call_to(t, "numpy.spacing", "math.ulp", "len"):
+        return True
     return False
 
 
@@ -161,6 +165,14 @@ def rule_m1(prog: Program, col: Collector) -> None:
                             col.check(not (strict and can_be_zero), ref.where(e.node), ref.short,
                                       "the tolerance test is non-strict (|x| <= tol): it also fires when the tolerance itself is 0", construct="tolerance-strict",
                                       necessity="for the all-zero game the scale, hence the tolerance, is 0: `|0| < 0` is false and the game is divided by 0")
+                            eps_based = any((x[0] == "attr" and x[2] in ("eps", "epsilon", "resolution")) or is_call_to(x, "numpy.spacing", "math.ulp") for x in subterms(b))
+                            small_literals = [x[1] for x in subterms(b) if x[0] == "const" and isinstance(x[1], float) and 0 < x[1] < 1e-3]
+                            col.check(eps_based and not small_literals, ref.where(e.node), ref.short,
+                                      f"the tolerance {short(b, 60)} is a small multiple of the rounding unit of the value type (finfo.eps / spacing), not an ad-hoc constant",
+                                      construct="tolerance-coarse",
+                                      necessity="the residue of the singleton subtractions is a few ulps of the largest value; a cut-off like 1e-9 * scale is seven orders of magnitude "
+                                                "coarser, so exactly representable superadditive games with a small surplus (v(i) = 2**31, v(N) = 3 * 2**31 + 4) are flattened to the zero "
+                                                "game and de-normalising cannot restore v(N)")
                             col.check(_nonneg(b), ref.where(e.node), ref.short,
                                       f"the tolerance {short(b, 60)} is non-negative by construction (built from absolute values / norms / positive literals)",
                                       construct="tolerance-sign",
